@@ -282,7 +282,7 @@ func (r *Report) Finish(verifDir, tier string, seed int, start time.Time, extra 
 	}
 	sort.Strings(funcs)
 	cov := map[string]interface{}{
-		"explanation": "Static analysis of /repo's current source (go/packages type-checked program, go/ssa form, dominator/must-dataflow on the SSA control-flow graph, resolved call graph). Nothing from /repo is executed. Rules applied: " + strings.Join(ruleTexts, " | "),
+		"explanation":         "Static analysis of /repo's current source (go/packages type-checked program, go/ssa form, dominator/must-dataflow on the SSA control-flow graph, resolved call graph). Nothing from /repo is executed. Rules applied: " + strings.Join(ruleTexts, " | "),
 		"obligations":         len(r.Obls),
 		"discharged":          nDis,
 		"undecided":           nUnd,
